@@ -13,15 +13,16 @@ Proof. vm_compute. repeat split; reflexivity. Qed.
 
 Section Z.
 Variable deflate : Z -> list Z -> list Z.
+Variable cap : Z.
 
-Definition lce := lc_encode cs default_cap C_lc (fid_of "LogContainer" "compressionMethod") (fid_of "LogContainer" "uncompressedFileSize")
+Definition lce := lc_encode cs cap C_lc (fid_of "LogContainer" "compressionMethod") (fid_of "LogContainer" "uncompressedFileSize")
                             (fid_of "LogContainer" "compressedFile") deflate.
 
-Theorem file_shape : forall cfg hdr objs f, f_write_session deflate cfg hdr objs = Ok f ->
+Theorem file_shape : forall cfg hdr objs f, f_write_session deflate cap cfg hdr objs = Ok f ->
   let U := concat (map fst objs) in
   exists ps conts hdr' hbytes h0 h00 hbytes0,
     f = hbytes ++ concat conts /\
-    enc cs default_cap C_stats hdr' = Ok (h0, hbytes) /\ enc cs default_cap C_stats hdr = Ok (h00, hbytes0) /\
+    enc cs cap C_stats hdr' = Ok (h0, hbytes) /\ enc cs cap C_stats hdr = Ok (h00, hbytes0) /\
     Forall2 (fun p c => lce (w_level cfg) p = Ok c) (if w_restore cfg then ps ++ [[]] else ps) conts /\
     ps = pieces (length U) (w_cs cfg) U /\ concat ps = U /\
     hdr' (fid_of "FileStatistics" "objectCount") = VInt (Z.of_nat (length (filter snd objs)) mod 2 ^ 32) /\
@@ -34,7 +35,7 @@ Theorem file_shape : forall cfg hdr objs f, f_write_session deflate cfg hdr objs
                g <> fid_of "FileStatistics" "objectCount" -> g <> fid_of "FileStatistics" "restorePointsOffset" -> hdr' g = hdr g).
 Proof.
   intros cfg hdr objs f H. unfold f_write_session in H.
-  exact (write_session_shape cs default_cap C_stats C_lc _ _ _ _ _ _ _ _ deflate stat_ids_distinct cfg hdr objs f H).
+  exact (write_session_shape cs cap C_stats C_lc _ _ _ _ _ _ _ _ deflate stat_ids_distinct cfg hdr objs f H).
 Qed.
 
 (* the pieces respect the configured container size (at least one byte) *)
